@@ -265,7 +265,10 @@ class Recorder:
                 vec.append(phys[n])
         mf = set(snap["mask_factor"])
         if len(mf) > 1:
-            raise tlc.MachineryError("mixed mask_factor flags are outside Session.tla")
+            # some decays masked, some not: no block of the library produces that on purpose (temp_total_gls_one sets
+            # all flags); projected as "masked" so that the record is compared with the specification's state and a
+            # restoring record that leaves it behind is refused (a violation), not a machinery failure
+            mf = {True}
         mask = snap["mask"]
         st = {
             "p": self._intern_vec("p", vec),
